@@ -63,7 +63,11 @@ type liveSeries struct {
 }
 
 func (c09) Run(e *Env) {
-	e.ProbeDecl("expired", "reported-idle", "boundary-exact", "revived-after-expiry", "negative-expiry-single-flush", "zero-expiry-long-idle", "data-at-flush-instant", "histogram-timer-series", "small-value-pool", "huge-expiry-long-idle", "several-values-in-one-datagram")
+	e.ProbeDecl("expired", "reported-idle", "boundary-exact", "revived-after-expiry", "negative-expiry-single-flush", "zero-expiry-long-idle", "data-at-flush-instant", "histogram-timer-series", "small-value-pool", "huge-expiry-long-idle", "several-values-in-one-datagram", "node-variant", "datapoint-over-http", "older-datapoint-after-newer")
+	if e.Chance(1, 4) {
+		c09Node(e) // http ingestion and late maps into the real BackendHandler instead of datagrams into a server
+		return
+	}
 	// incl. intervals that will never elapse in a run: a year, and the largest a configuration can express
 	expChoices := []time.Duration{-time.Second, 0, 300 * time.Millisecond, 400 * time.Millisecond, 600 * time.Millisecond, time.Second, 1500 * time.Millisecond, 5 * time.Second, -time.Nanosecond, 8760 * time.Hour, 2562047 * time.Hour, math.MaxInt64}
 	cfg := W1Config{
